@@ -1,6 +1,7 @@
 package props
 
 import (
+	"reflect"
 	"fmt"
 	"go/ast"
 	"go/constant"
@@ -711,6 +712,9 @@ func singleDef(info *types.Info, root ast.Node, obj types.Object) ast.Expr {
 
 func inspectAll(nodes []ast.Node, f func(ast.Node) bool) {
 	for _, n := range nodes {
+		if n == nil || reflect.ValueOf(n).IsNil() {
+			continue
+		}
 		ast.Inspect(n, f)
 	}
 }
